@@ -11,7 +11,8 @@ from harness import world as W
 CLASSES = {
     "plain": ["a", "Z9", "name"], "space": [" "], "quote": ['"'], "semi": [";"], "eq": ["="], "dash": ["-"], "digit": ["7", "250"],
     "backslash": ["\\"], "percent": ["%s", "%"], "dot": ["."], "nonascii": ["é", "ж", "名"], "combining": ["é"], "astral": ["\U0001F600"],
-    "mlsx": ["Type=dir;", "Size=1;"], "arrow": [" -> "], "code": ["250 ", "226-"], "dquote": ['""'], "squote": ["'"],
+    "semisp": ["; "], "eqsp": ["= "], "spsemi": [" ;"], "spdash": [" -"], "crlfish": ["\\r\\n"],
+    "mlsx": ["Type=dir;", "Size=1;", "Type=dir; "], "arrow": [" -> "], "code": ["250 ", "226-"], "dquote": ['""'], "squote": ["'"],
 }
 
 
